@@ -80,7 +80,7 @@ def run(rep, tier, seed):
     ]
     big = tier == "thorough"
     fams = [("depth", dict(MaxNodes=5 if big else 4)), ("flat", dict(MaxNodes=4 if big else 3)),
-            ("loop", dict(MaxNodes=3)), ("var", dict(MaxNodes=3))]
+            ("looplim", dict(MaxNodes=4 if big else 3)), ("var", dict(MaxNodes=3)), ("config", dict(MaxNodes=4 if big else 3))]
     cmp = interp.standard_compare()
     for fam, over in fams:
         r = interp.model_check_family(rep, fam, tier, **over)
@@ -107,12 +107,13 @@ def run(rep, tier, seed):
                               trace_budget=60000 if big else 25000)
     # vacuity guard: the boundary must have been exercised on both sides
     oc = rep.notes["outcome_classes"]
-    for fam, need in (("depth", {"ok", "depth"}), ("loop", {"ok", "loop"}), ("var", {"ok", "var"}), ("flat", {"ok"})):
+    for fam, need in (("depth", {"ok", "depth"}), ("looplim", {"ok", "loop"}), ("var", {"ok", "var"}), ("flat", {"ok"}),
+                      ("config", {"ok", "loop", "depth"})):
         if not need <= set(oc[fam]):
             raise vlib.ToolError(f"family {fam} did not reach outcomes {need - set(oc[fam])}: vacuous")
     # negative controls (sharpness of the model)
     interp.negative_control(rep, "flat", "LeakDepthContainer", {"DepthIsNesting", "ResultIsIdeal", "CleanAtEnd"}, MaxNodes=3)
-    interp.negative_control(rep, "loop", "RetryLimitErrors", {"ResultIsIdeal"}, MaxNodes=3)
+    interp.negative_control(rep, "looplim", "RetryLimitErrors", {"ResultIsIdeal"}, MaxNodes=3)
     if big:
         interp.negative_control(rep, "depth", "LeakDepthOnLimit", {"DepthIsNesting", "ResultIsIdeal", "CleanAtEnd"}, MaxNodes=3)
 
